@@ -473,7 +473,9 @@ def layer_io_cells(tier):
                                   backends=(("cadical", 1500),), split=6))
             cells.append(Cell("io.%s.write.N%d" % (nm, n), un, "h_layer_write_binary", defines=d, enforce="layer_write_binary",
                               replace=["write_io_header", "write_io_footer"], closes_loops="loop-free", backends=(("cadical", 1500),), split=6))
-            if tier == "thorough":
+            if tier == "thorough" and os.environ.get("VERIF_ATTEMPTS"):
+                # not in the registered tiers: measured, no back end decides the lemma within 40 min / 10 GB (4 of 5
+                # instances; the fifth exposed a harness slip, since corrected); run with VERIF_ATTEMPTS=1 to record an attempt
                 cells.append(Cell("io.%s.roundtrip.N%d" % (nm, n), un, "h_layer_roundtrip", defines=d, optional=True,
                                   replace=["layer_write_binary", "layer_read_binary"], unwind=5, closes_loops="harness loops over N", backends=(("cadical", 2400),),
                                   note="round-trip lemma over the two contracts (recorded attempt: needs ~8 min and close to the 10 GB memory cap; decided when run alone)"))
@@ -552,7 +554,7 @@ def cells_C07(tier, consts):
 
 
 PROPS["C06"] = {
-    "level_text": "writers and readers proved against the golden byte grammar of the pinned revision, modularly: header/footer primitives; the array backend's payload (element loops closed by loop contracts, symbolic count); the framing of strided / morton / hilbert (tag, extents, inner image, footer), clamp and backup (tag, raw configuration vectors, inner image, footer; thorough tier only, as optional recorded attempts: their solver runs need several GB and are counted only when they finish), constant, identity, the pass-through layers and field::dump / field(istream&) -- each against an ABSTRACT inner-backend serialiser; per-layer round-trip lemma over the two contracts: what write_binary emits, read_binary accepts, consuming exactly the image and returning the same configuration and inner value; writers are functions of configuration and payload only (re-dump gives the same bytes)",
+    "level_text": "writers and readers proved against the golden byte grammar of the pinned revision, modularly: header/footer primitives; the array backend's payload (element loops closed by loop contracts, symbolic count); the framing of strided / morton / hilbert (tag, extents, inner image, footer), clamp and backup (tag, raw configuration vectors, inner image, footer; thorough tier only, as optional recorded attempts: their solver runs need several GB and are counted only when they finish), constant, identity, the pass-through layers and field::dump / field(istream&) -- each against an ABSTRACT inner-backend serialiser; the per-layer round trip follows from the two contracts (writer and reader are proved against the same byte grammar) but the lemma combining them is NOT mechanised in the registered tiers (no back end decides it within 40 min / 10 GB; VERIF_ATTEMPTS=1 records an attempt); writers are functions of configuration and payload only (re-dump gives the same bytes)",
     "level_note": "the stack-level statement is the structural induction over layers (meta-level, unchecked; the inner backend's own round trip is the induction hypothesis); the affine layer's serialiser is NOT under contract; constant, covariant_cast and dereference serialisers did not compile when instantiated (D7/D8): repaired by fix: commits and now under contract; std::iostream modelled by the ghost stream; stream limited to 2^40 bytes, array to 2^32 elements",
     "design_ref": "DESIGN.md section 5 (C06/C07/C08)",
     "cells": cells_C06, "consts": True,
